@@ -102,6 +102,9 @@ pub trait Val: Any {
     fn se_to_string(&self) -> Result<String, String>;
     fn se_to_writer(&self) -> Result<String, String>;
     fn se_to_io(&self, sink: &mut dyn std::io::Write) -> Result<(), String>;
+    /// `Writer::write_serializable(tag, self)`, optionally inside an open element `<o_outer>` of an
+    /// indenting writer; returns everything the writer received
+    fn se_write_serializable(&self, tag: &str, indent: Option<(u8, usize)>, nested: bool) -> Result<String, String>;
     fn eq_val(&self, other: &dyn Val) -> bool;
     fn dbg(&self) -> String;
     fn as_any(&self) -> &dyn Any;
@@ -119,6 +122,21 @@ impl<T: Serialize + PartialEq + Debug + 'static> Val for T {
     }
     fn se_to_io(&self, sink: &mut dyn std::io::Write) -> Result<(), String> {
         quick_xml::se::to_utf8_io_writer(sink, self).map(|_| ()).map_err(|e| e.to_string())
+    }
+    fn se_write_serializable(&self, tag: &str, indent: Option<(u8, usize)>, nested: bool) -> Result<String, String> {
+        use quick_xml::events::{BytesEnd, BytesStart, Event};
+        let mut w = match indent {
+            None => quick_xml::Writer::new(Vec::new()),
+            Some((c, n)) => quick_xml::Writer::new_with_indent(Vec::new(), c, n),
+        };
+        if nested {
+            w.write_event(Event::Start(BytesStart::new("o_outer"))).map_err(|e| e.to_string())?;
+        }
+        w.write_serializable(tag, self).map_err(|e| e.to_string())?;
+        if nested {
+            w.write_event(Event::End(BytesEnd::new("o_outer"))).map_err(|e| e.to_string())?;
+        }
+        String::from_utf8(w.into_inner()).map_err(|e| e.to_string())
     }
     fn eq_val(&self, other: &dyn Val) -> bool {
         other.as_any().downcast_ref::<T>().map_or(false, |o| o == self)
@@ -169,10 +187,13 @@ pub struct TypeOps {
 }
 
 fn de_str_impl<T: DeserializeOwned + Val>(s: &str, limit: Option<usize>) -> DeResult {
+    let l = match limit {
+        // the plain entry point
+        None => return quick_xml::de::from_str::<T>(s).map(|v| Box::new(v) as Box<dyn Val>).map_err(de_err),
+        Some(l) => l,
+    };
     let mut de = Deserializer::from_str(s);
-    if let Some(l) = limit {
-        de.event_buffer_size(NonZeroUsize::new(l));
-    }
+    de.event_buffer_size(NonZeroUsize::new(l));
     T::deserialize(&mut de).map(|v| Box::new(v) as Box<dyn Val>).map_err(de_err)
 }
 fn de_reader_impl<T: DeserializeOwned + Val>(r: ChunkedRead) -> DeResult {
@@ -422,7 +443,7 @@ pub fn gen_key(r: &mut Rng) -> String {
 // the family
 // ---------------------------------------------------------------------------
 
-#[derive(Serialize, Deserialize, Debug, PartialEq, Clone, Copy)]
+#[derive(Serialize, Deserialize, Debug, PartialEq, Eq, PartialOrd, Ord, Clone, Copy)]
 pub enum Unit3 {
     #[serde(rename = "u_A")]
     A,
@@ -1015,6 +1036,121 @@ pub mod ignored {
 // ---------------------------------------------------------------------------
 
 /// The round-trippable family (C06 domain).
+
+/// T19 — xs:list / element lists of the non-string primitives (bool, char, unit enum, float) and a tuple
+/// in attribute position (rows of the atomic serializer / deserializer)
+#[derive(Serialize, Deserialize, Debug, PartialEq, Clone)]
+#[serde(rename = "s_listkinds")]
+pub struct ListKinds {
+    #[serde(rename = "@a_bools")]
+    pub bools: Vec<bool>,
+    #[serde(rename = "@a_chars")]
+    pub chars: Vec<char>,
+    #[serde(rename = "@a_units")]
+    pub units: Vec<Unit3>,
+    #[serde(rename = "@a_f32s")]
+    pub f32s: Vec<f32>,
+    #[serde(rename = "@a_pair")]
+    pub pair: (u8, bool, Unit3),
+    #[serde(default)]
+    pub t_flag: Vec<bool>,
+    #[serde(default)]
+    pub t_ch: Vec<char>,
+    pub t_w: Wrap,
+}
+/// newtype struct around a string, used in attribute, element and text positions
+#[derive(Serialize, Deserialize, Debug, PartialEq, Clone, Default)]
+pub struct Wrap(pub String);
+
+fn gen_listkinds(r: &mut Rng) -> ListKinds {
+    ListKinds {
+        bools: (0..gen_len(r)).map(|_| r.bool()).collect(),
+        chars: (0..gen_len(r)).map(|_| gen_char(r, Pos::Item)).collect(),
+        units: (0..gen_len(r)).map(|_| gen_unit3(r)).collect(),
+        f32s: (0..gen_len(r).min(4)).map(|_| gen_f32(r)).collect(),
+        pair: (r.next() as u8, r.bool(), gen_unit3(r)),
+        t_flag: (0..gen_len(r).min(5)).map(|_| r.bool()).collect(),
+        t_ch: (0..gen_len(r).min(5)).map(|_| gen_char(r, Pos::Text)).collect(),
+        t_w: Wrap(gen_string(r, Pos::Text)),
+    }
+}
+
+/// T20 — `$text` content typed as a unit enum / bool / char / newtype, next to typed attributes
+#[derive(Serialize, Deserialize, Debug, PartialEq, Clone)]
+#[serde(rename = "x_textenum")]
+pub struct TextEnum {
+    #[serde(rename = "@a_w")]
+    pub w: Wrap,
+    #[serde(rename = "@a_ob", skip_serializing_if = "Option::is_none", default)]
+    pub ob: Option<bool>,
+    #[serde(rename = "$text")]
+    pub t: Unit3,
+}
+#[derive(Serialize, Deserialize, Debug, PartialEq, Clone)]
+#[serde(rename = "x_textbool")]
+pub struct TextBool {
+    #[serde(rename = "@a_u")]
+    pub u: Unit3,
+    #[serde(rename = "$text")]
+    pub t: bool,
+}
+#[derive(Serialize, Deserialize, Debug, PartialEq, Clone)]
+#[serde(rename = "x_textchar")]
+pub struct TextChar {
+    #[serde(rename = "@a_c")]
+    pub c: char,
+    #[serde(rename = "$text")]
+    pub t: char,
+}
+#[derive(Serialize, Deserialize, Debug, PartialEq, Clone)]
+#[serde(rename = "x_textwrap")]
+pub struct TextWrap {
+    #[serde(rename = "@a_k")]
+    pub k: u8,
+    // an empty text is no node at all (as for TextStr)
+    #[serde(rename = "$text", default)]
+    pub t: Wrap,
+}
+/// `$text: Option<String>`: `None` is skipped, `Some` is never empty in the domain (an absent text is `None`)
+#[derive(Serialize, Deserialize, Debug, PartialEq, Clone)]
+#[serde(rename = "x_textopt")]
+pub struct TextOpt {
+    #[serde(rename = "@a_k")]
+    pub k: u8,
+    #[serde(rename = "$text", skip_serializing_if = "Option::is_none", default)]
+    pub t: Option<String>,
+}
+fn gen_textopt(r: &mut Rng) -> TextOpt {
+    let t = if r.bool() { Some(gen_string(r, Pos::MixedText)) } else { None };
+    TextOpt { k: r.next() as u8, t }
+}
+
+/// T21 — maps whose keys are not strings but still spell XML names: bool, unit enum, char
+#[derive(Serialize, Deserialize, Debug, PartialEq, Clone)]
+#[serde(rename = "s_typedkeys")]
+pub struct TypedKeys {
+    #[serde(rename = "@a_k")]
+    pub k: u8,
+    pub k_b: BTreeMap<bool, String>,
+    pub k_u: BTreeMap<Unit3, u8>,
+    pub k_c: BTreeMap<char, Wrap>,
+}
+fn gen_typedkeys(r: &mut Rng) -> TypedKeys {
+    let mut k_b = BTreeMap::new();
+    for _ in 0..r.below(3) {
+        k_b.insert(r.bool(), gen_string(r, Pos::Text));
+    }
+    let mut k_u = BTreeMap::new();
+    for _ in 0..r.below(4) {
+        k_u.insert(gen_unit3(r), r.next() as u8);
+    }
+    let mut k_c = BTreeMap::new();
+    for _ in 0..r.below(4) {
+        k_c.insert(*r.pick(&['a', 'Z', '_', 'q', 'é', '日']), Wrap(gen_string(r, Pos::Text)));
+    }
+    TypedKeys { k: r.next() as u8, k_b, k_u, k_c }
+}
+
 pub fn family() -> Vec<TypeOps> {
     vec![
         ops!(Attrs, "Attrs", gen = gen_attrs, rows = &["attribute:string", "attribute:number", "attribute:bool", "attribute:char", "attribute:unit-enum", "attribute:option-skipped", "attribute:xs-list"]),
@@ -1035,6 +1171,13 @@ pub fn family() -> Vec<TypeOps> {
         ops!(Nums, "Nums", gen = gen_nums, rows = &["numbers:extremes", "list:elements-number"]),
         ops!(ListText, "ListText", gen = gen_listtext, rows = &["list:elements-followed-by-$text"]),
         ops!(ValuePlus, "ValuePlus", gen = |r| ValuePlus { k: r.next() as u8, t_title: gen_string(r, Pos::Text), c: gen_choice(r), t_tail: r.next() as u32 }, rows = &["$value:enum-choice-next-to-element-fields"]),
+        ops!(ListKinds, "ListKinds", gen = gen_listkinds, rows = &["attribute:xs-list-of-bool-char-enum-float", "attribute:tuple", "list:elements-bool-char", "element:newtype"]),
+        ops!(TextEnum, "TextEnum", gen = |r| TextEnum { w: Wrap(gen_string(r, Pos::Attr)), ob: if r.bool() { Some(r.bool()) } else { None }, t: gen_unit3(r) }, rows = &["$text:unit-enum", "attribute:newtype", "attribute:option-bool"]),
+        ops!(TextBool, "TextBool", gen = |r| TextBool { u: gen_unit3(r), t: r.bool() }, rows = &["$text:bool"]),
+        ops!(TextChar, "TextChar", gen = |r| TextChar { c: gen_char(r, Pos::Attr), t: gen_char(r, Pos::Text) }, rows = &["$text:char"]),
+        ops!(TextWrap, "TextWrap", gen = |r| TextWrap { k: r.next() as u8, t: Wrap(gen_string(r, Pos::Text)) }, rows = &["$text:newtype"]),
+        ops!(TextOpt, "TextOpt", gen = gen_textopt, rows = &["$text:option"]),
+        ops!(TypedKeys, "TypedKeys", gen = gen_typedkeys, rows = &["map:bool-keys", "map:unit-enum-keys", "map:char-keys"]),
     ]
 }
 
@@ -1161,6 +1304,181 @@ pub fn optional_family() -> Vec<TypeOps> {
     ]
 }
 
+
+// ---------------------------------------------------------------------------
+// generic holders: one field of any type in `$text`, `$value`, attribute or element position
+// (serialize-only shapes for C13 / C19 and extra targets for C07)
+// ---------------------------------------------------------------------------
+
+#[derive(Serialize, Deserialize, Debug, PartialEq, Clone)]
+#[serde(rename = "x_textany")]
+pub struct TextAny<T> {
+    #[serde(rename = "@a_k")]
+    pub k: u8,
+    #[serde(rename = "$text")]
+    pub t: T,
+}
+#[derive(Serialize, Deserialize, Debug, PartialEq, Clone)]
+#[serde(rename = "m_valany")]
+pub struct ValAny<T> {
+    #[serde(rename = "@a_k")]
+    pub k: u8,
+    #[serde(rename = "$value")]
+    pub v: T,
+}
+#[derive(Serialize, Deserialize, Debug, PartialEq, Clone)]
+#[serde(rename = "s_attrany")]
+pub struct AttrAny<T> {
+    #[serde(rename = "@a_v")]
+    pub v: T,
+    pub t_after: String,
+}
+#[derive(Serialize, Deserialize, Debug, PartialEq, Clone)]
+#[serde(rename = "s_elemany")]
+pub struct ElemAny<T> {
+    pub t_v: T,
+    #[serde(rename = "@a_k")]
+    pub k: u8,
+}
+/// every kind of variant, incl. a `$text` variant and a struct variant with attribute and text fields
+#[derive(Serialize, Deserialize, Debug, PartialEq, Clone)]
+pub enum VarKinds {
+    #[serde(rename = "u_U")]
+    U,
+    #[serde(rename = "t_N")]
+    N(String),
+    #[serde(rename = "x_S")]
+    S {
+        #[serde(rename = "@a_x")]
+        x: String,
+        #[serde(rename = "$text")]
+        t: String,
+    },
+    #[serde(rename = "t_T")]
+    T(String, u8),
+    #[serde(rename = "$text")]
+    Txt(String),
+}
+fn gen_varkinds(r: &mut Rng) -> VarKinds {
+    match r.below(5) {
+        0 => VarKinds::U,
+        1 => VarKinds::N(gen_string(r, Pos::Attr)),
+        2 => VarKinds::S { x: gen_string(r, Pos::Attr), t: gen_string(r, Pos::Attr) },
+        3 => VarKinds::T(gen_string(r, Pos::Attr), r.next() as u8),
+        _ => VarKinds::Txt(gen_string(r, Pos::Attr)),
+    }
+}
+/// enums whose `$text` variant is a unit / tuple / struct variant (C07 targets)
+#[derive(Serialize, Deserialize, Debug, PartialEq, Clone)]
+pub enum TextUnitVar {
+    #[serde(rename = "u_A")]
+    A,
+    #[serde(rename = "$text")]
+    T,
+}
+#[derive(Serialize, Deserialize, Debug, PartialEq, Clone)]
+pub enum TextTupleVar {
+    #[serde(rename = "u_A")]
+    A,
+    #[serde(rename = "$text")]
+    T(String, u8),
+}
+#[derive(Serialize, Deserialize, Debug, PartialEq, Clone)]
+pub enum TextStructVar {
+    #[serde(rename = "u_A")]
+    A,
+    #[serde(rename = "$text")]
+    T { t_x: String },
+}
+
+
+// serde patterns that go through `deserialize_any` / content buffering (C07 targets)
+#[derive(Serialize, Deserialize, Debug, PartialEq, Clone)]
+#[serde(rename = "s_flat")]
+pub struct Flat {
+    #[serde(rename = "@a_k", default)]
+    pub k: u8,
+    #[serde(default)]
+    pub t_a: String,
+    #[serde(flatten)]
+    pub rest: BTreeMap<String, String>,
+}
+#[derive(Serialize, Deserialize, Debug, PartialEq, Clone)]
+#[serde(rename = "s_flat2")]
+pub struct Flat2 {
+    #[serde(flatten)]
+    pub inner: Inner,
+    #[serde(flatten)]
+    pub rest: BTreeMap<String, serde_json::Value>,
+}
+#[derive(Serialize, Deserialize, Debug, PartialEq, Clone)]
+#[serde(untagged)]
+pub enum Untagged {
+    I(Inner),
+    N(u8),
+    L(Vec<String>),
+    S(String),
+    U,
+}
+#[derive(Serialize, Deserialize, Debug, PartialEq, Clone)]
+#[serde(tag = "t_type")]
+pub enum IntTagged {
+    #[serde(rename = "u_A")]
+    A { t_a: String },
+    #[serde(rename = "u_B")]
+    B(Inner),
+    #[serde(rename = "u_C")]
+    C,
+}
+#[derive(Serialize, Deserialize, Debug, PartialEq, Clone)]
+#[serde(tag = "@a_t", content = "t_c")]
+pub enum AdjTagged {
+    #[serde(rename = "u_A")]
+    A(String),
+    #[serde(rename = "u_B")]
+    B { t_x: u8 },
+    #[serde(rename = "u_C")]
+    C,
+}
+#[derive(Serialize, Deserialize, Debug, PartialEq, Clone)]
+pub struct TupleStruct(pub u8, pub String, pub Option<Inner>);
+/// a field that asks for bytes (`deserialize_byte_buf`) and accepts bytes, strings and sequences
+#[derive(Debug, PartialEq, Clone, Default)]
+pub struct ByteBuf(pub Vec<u8>);
+impl Serialize for ByteBuf {
+    fn serialize<S: serde::Serializer>(&self, s: S) -> Result<S::Ok, S::Error> {
+        s.serialize_bytes(&self.0)
+    }
+}
+impl<'de> Deserialize<'de> for ByteBuf {
+    fn deserialize<D: serde::Deserializer<'de>>(d: D) -> Result<Self, D::Error> {
+        struct V;
+        impl<'de> serde::de::Visitor<'de> for V {
+            type Value = ByteBuf;
+            fn expecting(&self, f: &mut std::fmt::Formatter) -> std::fmt::Result {
+                f.write_str("bytes")
+            }
+            fn visit_bytes<E: serde::de::Error>(self, v: &[u8]) -> Result<ByteBuf, E> {
+                Ok(ByteBuf(v.to_vec()))
+            }
+            fn visit_str<E: serde::de::Error>(self, v: &str) -> Result<ByteBuf, E> {
+                Ok(ByteBuf(v.as_bytes().to_vec()))
+            }
+            fn visit_seq<A: serde::de::SeqAccess<'de>>(self, mut a: A) -> Result<ByteBuf, A::Error> {
+                let mut out = Vec::new();
+                while let Some(b) = a.next_element::<u8>()? {
+                    out.push(b);
+                    if out.len() > 1 << 20 {
+                        break;
+                    }
+                }
+                Ok(ByteBuf(out))
+            }
+        }
+        d.deserialize_byte_buf(V)
+    }
+}
+
 /// Extra deserialization targets for the totality property (C07); no generators.
 pub fn extra_targets() -> Vec<TypeOps> {
     vec![
@@ -1209,6 +1527,72 @@ pub fn extra_targets() -> Vec<TypeOps> {
         ops!(BTreeMap<String, ignored::Ign>, "BTreeMap<String,IgnoredAny>"),
         ops!(Vec<BTreeMap<String, String>>, "Vec<BTreeMap<String,String>>"),
         ops!(Box<Option<Box<Inner>>>, "Box<Option<Box<Inner>>>"),
+        // every kind of type in $text / $value / attribute / element position, typed map keys, $text variants
+        ops!(TextAny<Vec<String>>, "TextAny<Vec<String>>"),
+        ops!(TextAny<(String, u8)>, "TextAny<(String,u8)>"),
+        ops!(TextAny<Option<String>>, "TextAny<Option<String>>"),
+        ops!(TextAny<()>, "TextAny<unit>"),
+        ops!(TextAny<UnitStruct>, "TextAny<UnitStruct>"),
+        ops!(TextAny<Unit3>, "TextAny<Unit3>"),
+        ops!(TextAny<Choice>, "TextAny<Choice>"),
+        ops!(TextAny<Inner>, "TextAny<Inner>"),
+        ops!(TextAny<ignored::Ign>, "TextAny<IgnoredAny>"),
+        ops!(TextAny<Vec<Option<u8>>>, "TextAny<Vec<Option<u8>>>"),
+        ops!(ValAny<String>, "ValAny<String>"),
+        ops!(ValAny<Vec<String>>, "ValAny<Vec<String>>"),
+        ops!(ValAny<Option<Unit3>>, "ValAny<Option<Unit3>>"),
+        ops!(ValAny<()>, "ValAny<unit>"),
+        ops!(ValAny<(String, u8, Inner)>, "ValAny<(String,u8,Inner)>"),
+        ops!(ValAny<Vec<VarKinds>>, "ValAny<Vec<VarKinds>>"),
+        ops!(ValAny<Vec<TextTupleVar>>, "ValAny<Vec<TextTupleVar>>"),
+        ops!(ValAny<TextStructVar>, "ValAny<TextStructVar>"),
+        ops!(ValAny<Vec<TextUnitVar>>, "ValAny<Vec<TextUnitVar>>"),
+        ops!(AttrAny<Option<Vec<u8>>>, "AttrAny<Option<Vec<u8>>>"),
+        ops!(AttrAny<()>, "AttrAny<unit>"),
+        ops!(AttrAny<(String, String)>, "AttrAny<(String,String)>"),
+        ops!(AttrAny<Choice>, "AttrAny<Choice>"),
+        ops!(AttrAny<Inner>, "AttrAny<Inner>"),
+        ops!(AttrAny<Wrap>, "AttrAny<Wrap>"),
+        ops!(AttrAny<char>, "AttrAny<char>"),
+        ops!(ElemAny<Vec<Unit3>>, "ElemAny<Vec<Unit3>>"),
+        ops!(ElemAny<Vec<Vec<String>>>, "ElemAny<Vec<Vec<String>>>"),
+        ops!(ElemAny<(Inner, Unit3, ())>, "ElemAny<(Inner,Unit3,unit)>"),
+        ops!(ElemAny<Option<Option<Inner>>>, "ElemAny<Option<Option<Inner>>>"),
+        ops!(ElemAny<BTreeMap<String, Vec<String>>>, "ElemAny<BTreeMap<String,Vec<String>>>"),
+        ops!(VarKinds, "VarKinds"),
+        ops!(Vec<VarKinds>, "Vec<VarKinds>"),
+        ops!(TextUnitVar, "TextUnitVar"),
+        ops!(TextTupleVar, "TextTupleVar"),
+        ops!(TextStructVar, "TextStructVar"),
+        ops!(BTreeMap<u8, String>, "BTreeMap<u8,String>"),
+        ops!(BTreeMap<i64, u8>, "BTreeMap<i64,u8>"),
+        ops!(BTreeMap<bool, String>, "BTreeMap<bool,String>"),
+        ops!(BTreeMap<char, String>, "BTreeMap<char,String>"),
+        ops!(BTreeMap<Unit3, String>, "BTreeMap<Unit3,String>"),
+        ops!(BTreeMap<Option<String>, String>, "BTreeMap<Option<String>,String>"),
+        ops!(BTreeMap<(), String>, "BTreeMap<unit,String>"),
+        // deserialize_any / buffered content: flatten, untagged, internally and adjacently tagged, serde_json::Value
+        ops!(Flat, "Flat"),
+        ops!(Flat2, "Flat2"),
+        ops!(Untagged, "Untagged"),
+        ops!(Vec<Untagged>, "Vec<Untagged>"),
+        ops!(ValAny<Vec<Untagged>>, "ValAny<Vec<Untagged>>"),
+        ops!(ElemAny<Untagged>, "ElemAny<Untagged>"),
+        ops!(IntTagged, "IntTagged"),
+        ops!(ElemAny<Vec<IntTagged>>, "ElemAny<Vec<IntTagged>>"),
+        ops!(AdjTagged, "AdjTagged"),
+        ops!(serde_json::Value, "serde_json::Value"),
+        ops!(Vec<serde_json::Value>, "Vec<serde_json::Value>"),
+        ops!(BTreeMap<String, serde_json::Value>, "BTreeMap<String,serde_json::Value>"),
+        ops!(TupleStruct, "TupleStruct"),
+        ops!(ElemAny<TupleStruct>, "ElemAny<TupleStruct>"),
+        ops!(ByteBuf, "ByteBuf"),
+        ops!(ElemAny<ByteBuf>, "ElemAny<ByteBuf>"),
+        ops!(AttrAny<ByteBuf>, "AttrAny<ByteBuf>"),
+        ops!(TextAny<ByteBuf>, "TextAny<ByteBuf>"),
+        ops!(ElemAny<Vec<()>>, "ElemAny<Vec<unit>>"),
+        ops!(ElemAny<Vec<Wrap>>, "ElemAny<Vec<Wrap>>"),
+        ops!(ElemAny<Vec<UnitStruct>>, "ElemAny<Vec<UnitStruct>>"),
     ]
 }
 
@@ -1459,5 +1843,39 @@ pub fn ser_only() -> Vec<SerOnly> {
         so!("Option<String>", |r: &mut Rng| if r.bool() { Some(gen_string(r, Pos::Attr)) } else { None }),
         so!("unit", |_r: &mut Rng| ()),
         so!("UnitStruct", |_r: &mut Rng| UnitStruct),
+        // typed map keys (numbers do not spell XML names: an error or a legal document, never `<1>`)
+        so!("BTreeMap<u8,String>", |r: &mut Rng| (0..r.below(3)).map(|_| (r.next() as u8, gen_string(r, Pos::Attr))).collect::<BTreeMap<u8, String>>()),
+        so!("BTreeMap<i64,String>", |r: &mut Rng| (0..r.below(3)).map(|_| (r.next() as i64, gen_string(r, Pos::Attr))).collect::<BTreeMap<i64, String>>()),
+        so!("BTreeMap<char,String>", |r: &mut Rng| (0..r.below(3)).map(|_| (gen_char(r, Pos::Attr), gen_string(r, Pos::Attr))).collect::<BTreeMap<char, String>>()),
+        so!("BTreeMap<bool,String>", |r: &mut Rng| (0..r.below(3)).map(|_| (r.bool(), gen_string(r, Pos::Attr))).collect::<BTreeMap<bool, String>>()),
+        so!("BTreeMap<Option<String>,String>", |r: &mut Rng| (0..r.below(3)).map(|_| (if r.bool() { Some(gen_key(r)) } else { None }, gen_string(r, Pos::Attr))).collect::<BTreeMap<Option<String>, String>>()),
+        so!("BTreeMap<(u8,u8),String>", |r: &mut Rng| (0..r.below(3)).map(|_| ((r.next() as u8, r.next() as u8), gen_string(r, Pos::Attr))).collect::<BTreeMap<(u8, u8), String>>()),
+        so!("HasMapWeirdKeys", |r: &mut Rng| (0..r.below(3)).map(|_| (*r.pick(&WEIRD_ALL) as u8, gen_string(r, Pos::Attr))).collect::<BTreeMap<u8, String>>()),
+        // any kind of type in $text / $value / attribute / element position
+        so!("TextAny<Vec<String>>", |r: &mut Rng| TextAny { k: r.next() as u8, t: (0..r.below(4)).map(|_| gen_string(r, Pos::Attr)).collect::<Vec<String>>() }),
+        so!("TextAny<(String,u8)>", |r: &mut Rng| TextAny { k: r.next() as u8, t: (gen_string(r, Pos::Attr), r.next() as u8) }),
+        so!("TextAny<Option<String>>", |r: &mut Rng| TextAny { k: r.next() as u8, t: if r.bool() { Some(gen_string(r, Pos::Attr)) } else { None } }),
+        so!("TextAny<unit>", |r: &mut Rng| TextAny { k: r.next() as u8, t: () }),
+        so!("TextAny<Weird>", |r: &mut Rng| TextAny { k: r.next() as u8, t: *r.pick(&WEIRD_ALL) }),
+        so!("TextAny<char>", |r: &mut Rng| TextAny { k: r.next() as u8, t: gen_char(r, Pos::Attr) }),
+        so!("TextAny<Inner>", |r: &mut Rng| TextAny { k: r.next() as u8, t: gen_inner(r) }),
+        so!("TextAny<VarKinds>", |r: &mut Rng| TextAny { k: r.next() as u8, t: gen_varkinds(r) }),
+        so!("ValAny<String>", |r: &mut Rng| ValAny { k: r.next() as u8, v: gen_string(r, Pos::Attr) }),
+        so!("ValAny<Vec<String>>", |r: &mut Rng| ValAny { k: r.next() as u8, v: (0..r.below(4)).map(|_| gen_string(r, Pos::Attr)).collect::<Vec<String>>() }),
+        so!("ValAny<Vec<VarKinds>>", |r: &mut Rng| ValAny { k: r.next() as u8, v: (0..r.below(5)).map(|_| gen_varkinds(r)).collect::<Vec<VarKinds>>() }),
+        so!("ValAny<(String,VarKinds,u8)>", |r: &mut Rng| ValAny { k: r.next() as u8, v: (gen_string(r, Pos::Attr), gen_varkinds(r), r.next() as u8) }),
+        so!("ValAny<Option<Weird>>", |r: &mut Rng| ValAny { k: r.next() as u8, v: if r.bool() { Some(*r.pick(&WEIRD_ALL)) } else { None } }),
+        so!("AttrAny<(String,String)>", |r: &mut Rng| AttrAny { v: (gen_string(r, Pos::Attr), gen_string(r, Pos::Attr)), t_after: gen_string(r, Pos::Attr) }),
+        so!("AttrAny<Option<Vec<String>>>", |r: &mut Rng| AttrAny { v: if r.bool() { Some((0..r.below(3)).map(|_| gen_string(r, Pos::Attr)).collect::<Vec<String>>()) } else { None }, t_after: gen_string(r, Pos::Attr) }),
+        so!("AttrAny<Vec<char>>", |r: &mut Rng| AttrAny { v: (0..r.below(4)).map(|_| gen_char(r, Pos::Attr)).collect::<Vec<char>>(), t_after: gen_string(r, Pos::Attr) }),
+        so!("AttrAny<Vec<Weird>>", |r: &mut Rng| AttrAny { v: (0..r.below(4)).map(|_| *r.pick(&WEIRD_ALL)).collect::<Vec<Weird>>(), t_after: gen_string(r, Pos::Attr) }),
+        so!("AttrAny<VarKinds>", |r: &mut Rng| AttrAny { v: gen_varkinds(r), t_after: gen_string(r, Pos::Attr) }),
+        so!("AttrAny<Wrap>", |r: &mut Rng| AttrAny { v: Wrap(gen_string(r, Pos::Attr)), t_after: gen_string(r, Pos::Attr) }),
+        so!("AttrAny<unit>", |r: &mut Rng| AttrAny { v: (), t_after: gen_string(r, Pos::Attr) }),
+        so!("ElemAny<Vec<Weird>>", |r: &mut Rng| ElemAny { t_v: (0..r.below(4)).map(|_| *r.pick(&WEIRD_ALL)).collect::<Vec<Weird>>(), k: r.next() as u8 }),
+        so!("ElemAny<(String,VarKinds)>", |r: &mut Rng| ElemAny { t_v: (gen_string(r, Pos::Attr), gen_varkinds(r)), k: r.next() as u8 }),
+        so!("ElemAny<Vec<char>>", |r: &mut Rng| ElemAny { t_v: (0..r.below(4)).map(|_| gen_char(r, Pos::Attr)).collect::<Vec<char>>(), k: r.next() as u8 }),
+        so!("VarKinds", |r: &mut Rng| gen_varkinds(r)),
+        so!("Vec<VarKinds>", |r: &mut Rng| (0..r.below(4)).map(|_| gen_varkinds(r)).collect::<Vec<VarKinds>>()),
     ]
 }
